@@ -45,19 +45,27 @@ def run(cmd, cwd=None, env=None, timeout=None, stdin=None, stdout=subprocess.PIP
 
 # ------------------------------------------------------------------ facts
 
-def build_extractor(log):
-    exe = os.path.join(BUILD, "extract")
+def build_extractor(pid, log):
+    """one extractor binary per property: common files + that property's facts file only, so that a
+    half-written facts file of another property cannot break this check."""
+    exe = os.path.join(BUILD, "extract_" + pid)
     src = os.path.join(VERIF, "harness", "extract")
-    newest = max(os.path.getmtime(f) for f in glob.glob(src + "/*.go"))
+    files = ["main.go", "facts.go"]
+    own = "facts_" + pid.lower() + ".go"
+    if os.path.exists(os.path.join(src, own)):
+        files.append(own)
+    newest = max(os.path.getmtime(os.path.join(src, f)) for f in files)
     if os.path.exists(exe) and os.path.getmtime(exe) >= newest:
         return exe, None
     e = dict(os.environ)
     e["GOFLAGS"] = "-mod=mod"
     e["GOPROXY"] = "off"
     e["GOTOOLCHAIN"] = "local"
-    rc, out, _ = run(["go", "build", "-o", exe, "."], cwd=src, env=e)
+    tmp = exe + ".tmp%d" % os.getpid()
+    rc, out, _ = run(["go", "build", "-o", tmp] + files, cwd=src, env=e)
     if rc != 0:
         return None, out
+    os.replace(tmp, exe)
     return exe, None
 
 
@@ -65,7 +73,7 @@ def regenerate_facts(pid, log):
     gen_dir = os.path.join(LEAN, "KoordVerif", "Generated")
     os.makedirs(gen_dir, exist_ok=True)
     out = os.path.join(gen_dir, pid + ".lean")
-    exe, err = build_extractor(log)
+    exe, err = build_extractor(pid, log)
     if exe is None:
         return False, "extractor build failed: " + err[-2000:]
     tmp = out + ".new"
